@@ -446,6 +446,58 @@ Fixpoint rr (n : nat) : list nat := match n with O => [] | S k => rr k ++ [k] en
 Fixpoint repeat_sched (rounds : nat) (r : list nat) : list nat :=
   match rounds with O => [] | S k => r ++ repeat_sched k r end.
 
+(* ---- Server.shutdown with n Listeners ------------------------------------------------------------- *)
+(* The model above has one Listener.  What depends on their number is the hand-over of the
+   Listeners' names: every Listener sends its name on delListener (capacity 16) when it stops
+   and only then closes l.ch; Server.shutdown cancels the context (all Listeners start to
+   stop), waits for every Listener's l.ch and empties delListener.  [Old]: it only emptied
+   the channel after all the waits; [New] (4272f77): it takes names off the channel while it
+   waits.  Thread 0 is Server.shutdown, thread k+1 is Listener k. *)
+Inductive lph := LRun | LSend | LEnd.   (* accepting; stopping, about to send its name; l.ch closed *)
+Record ns := NS { ns_cancel : bool; ns_ls : list lph; ns_buf : nat; ns_sp : nat; ns_fin : bool }.
+Definition ns_cap : nat := 16.
+Definition ns_init (n : nat) : ns := NS false (repeat LRun n) 0 0 false.
+Definition ns_step (m : ver) (t : nat) (s : ns) : option ns :=
+  match t with
+  | O =>
+      if ns_fin s then None
+      else if negb (ns_cancel s) then Some (NS true (ns_ls s) (ns_buf s) (ns_sp s) false)      (* s.cancel() *)
+      else match nth_error (ns_ls s) (ns_sp s) with
+           | None => Some (NS true (ns_ls s) 0 (ns_sp s) true)            (* all waited for: empty delListener, close the channels *)
+           | Some LEnd => Some (NS true (ns_ls s) (ns_buf s) (S (ns_sp s)) false)              (* <-v.ch *)
+           | Some _ =>
+               if is_new m then
+                 match ns_buf s with
+                 | S b => Some (NS true (ns_ls s) b (ns_sp s) false)      (* case <-s.delListener *)
+                 | O => None
+                 end
+               else None                                                  (* old: v.Close() just waits *)
+           end
+  | S k =>
+      match nth_error (ns_ls s) k with
+      | Some LRun => if ns_cancel s then Some (NS (ns_cancel s) (set_nth k LSend (ns_ls s)) (ns_buf s) (ns_sp s) (ns_fin s)) else None
+      | Some LSend =>
+          if Nat.ltb (ns_buf s) ns_cap
+          then Some (NS (ns_cancel s) (set_nth k LEnd (ns_ls s)) (S (ns_buf s)) (ns_sp s) (ns_fin s))   (* l.s.delListener <- l.name; close(l.ch) *)
+          else None
+      | _ => None
+      end
+  end.
+Definition ns_do (m : ver) (t : nat) (s : ns) : ns := match ns_step m t s with Some s' => s' | None => s end.
+Fixpoint ns_run (m : ver) (sched : list nat) (s : ns) : ns :=
+  match sched with [] => s | t :: r => ns_run m r (ns_do m t s) end.
+Definition lw (p : lph) : nat := match p with LRun => 3 | LSend => 2 | LEnd => 0 end.
+Fixpoint sumw (l : list lph) : nat := match l with [] => O | p :: t => (lw p + sumw t)%nat end.
+(* bounds the number of steps that are still possible *)
+Definition ns_mu (s : ns) : nat :=
+  ((if ns_fin s then 0 else 1 + (if ns_cancel s then 0 else 1) + (length (ns_ls s) - ns_sp s)) +
+   ns_buf s + sumw (ns_ls s))%nat.
+Definition ns_threads (n : nat) : list nat := seq 0 (S n).
+Definition ns_fair (n : nat) : list nat := repeat_sched (ns_mu (ns_init n)) (ns_threads n).
+Definition ns_stuck (m : ver) (s : ns) : bool :=
+  negb (ns_fin s) && forallb (fun t => match ns_step m t s with None => true | Some _ => false end)
+                             (ns_threads (length (ns_ls s))).
+
 Definition pc_of_code (c : Z) : pc :=
   match c with
   | 1 => CC0 true | 2 => CC0 false | 3 => CX | 4 => SC0 RDone | 5 => SR0 | 6 => SH0 true | 7 => SH0 false
@@ -488,7 +540,9 @@ Inductive case :=
 | CStress (calls : list Z) (o_panic : bool) (o_all_closed : bool)
 (* a history of Listener.Close (10) / Replace to a free (20) or taken (21) address / Server.Close (9):
    panicked?, every call returned?, [l closed; l.ch; server ch; Replacing bit; socket nil] at the end *)
-| CLsn (phases : list (list Z)) (o_panic : bool) (o_returned : bool) (o_final : list Z).
+| CLsn (phases : list (list Z)) (o_panic : bool) (o_returned : bool) (o_final : list Z)
+(* a Server with n Listeners torn down by Server.Close / a context cancel: did it finish? *)
+| CMulti (n : Z) (o_finished : bool).
 
 Fixpoint run_phases (m : mode) (phases : list (list Z)) (pool : list pc) (w : world) : rstate :=
   match phases with
@@ -520,6 +574,8 @@ Definition check (c : case) : bool :=
           negb o_panic && Bool.eqb (forallb quiescent_pc (skipn (length service) pool)) o_returned
           && zlist_eqb [b2z (l_closed w); chan_code (l_done w); chan_code (sv_done w); b2z (l_repl w); b2z (l_nil w)] o_final
       end
+  | CMulti n o_finished =>
+      Bool.eqb (ns_fin (ns_run tree_mode (ns_fair (Z.to_nat n)) (ns_init (Z.to_nat n)))) o_finished
   | CStress calls o_panic o_all_closed =>
       match model_run tree_mode false false false true false [calls] with
       | Faulted _ _ => o_panic
